@@ -28,7 +28,7 @@ for name in sys.argv[2:]:
     for k, r in results.items():
         if k.startswith(name + "/"):
             checks[k.split("/")[1]] = {"detected": r["exit"] == 1 and len(r["violations"]) > 0, "signatures": r["violations"], "wall_s": r["wall_s"]}
-    meta = {"id": name, "breaks_property": ID, "origin": "independent sub-agent given only the property text and a scratch worktree",
+    meta = {"id": name, "breaks_property": ID[:3], "origin": "independent sub-agent given only the property text and a scratch worktree",
             "needs_to_manifest": "see README.md (written by the sub-agent)", "verified": verified, "checks_run": checks}
     if old.get("note"):
         meta["note"] = old["note"]
